@@ -44,7 +44,7 @@ let st_of = function
 
 let str_verr = function
   | VOk -> "ok" | VNoHeader -> "noheader" | VTime -> "time" | VExpired -> "expired" | VNoVals -> "novals"
-  | VNotVal -> "notval" | VHRS -> "hrs" | VAddr -> "addr" | VSameId -> "sameid" | VPower -> "power"
+  | VNotVal -> "notval" | VIndex -> "index" | VHRS -> "hrs" | VAddr -> "addr" | VSameId -> "sameid" | VPower -> "power"
   | VTotal -> "total" | VSigA -> "siga" | VSigB -> "sigb"
 let str_res = function
   | ROk -> "ok" | RBasic -> "basic" | RInvalid e -> "inv:" ^ str_verr e | RCommitted -> "committed"
